@@ -108,6 +108,68 @@ Section Codec.
      chunk, the finish chunk or the end *)
   Definition enc_budget (body : list bytes) (o : list bool) : nat := length o + 2 * length body + 3.
 
+  (* ---- the same machine, INSTRUMENTED: [enc_poll_obs] is [enc_poll] with one more result, the
+     number of times this call polled the wrapped body when the body had nothing left, i.e. the
+     number of `None`s the body stream returned (the first one is its end; every further one is a
+     poll of a finished stream, which `futures::stream::unfold` answers with a panic and a
+     non-fused stream may answer with Pending forever).  ContentCodingEndProofs.v proves that
+     erasing the count gives [enc_poll] and that the count never exceeds one per response. *)
+  Fixpoint enc_poll_obs (fuel : nat) (s : enc_st) (o : list bool)
+      : poll (option bytes) * enc_st * list bool * nat :=
+    match fuel with
+    | O => (Pending, s, o, O)
+    | S fuel =>
+        if e_eof s then (Ready None, s, o, O) else
+        let poll_body (s1 : enc_st) (o1 : list bool) :=
+            let '(rdy, o2) := ask o1 in
+            if negb rdy then (Pending, s1, o2, O) else
+            match e_body s1 with
+            | c :: rest =>
+                match e_encoder s1 with
+                | Some e =>
+                    if lenN c <? max_enc_in_place then
+                      let '(chunk, e2) := enc_take (enc_write e c) in
+                      let s2 := {| e_body := rest; e_encoder := Some e2; e_fut := None; e_eof := false |} in
+                      if nonempty chunk then (Ready (Some chunk), s2, o2, O) else enc_poll_obs fuel s2 o2
+                    else
+                      enc_poll_obs fuel {| e_body := rest; e_encoder := None;
+                                           e_fut := Some (enc_write e c); e_eof := false |} o2
+                | None =>
+                    (Ready (Some c), {| e_body := rest; e_encoder := None; e_fut := e_fut s1; e_eof := false |}, o2, O)
+                end
+            | [] =>                                           (* the body stream answers None *)
+                match e_encoder s1 with
+                | Some e =>
+                    let chunk := enc_finish e in
+                    if nonempty chunk
+                    then (Ready (Some chunk), {| e_body := []; e_encoder := None; e_fut := e_fut s1; e_eof := true |}, o2, 1%nat)
+                    else (Ready None, {| e_body := []; e_encoder := None; e_fut := e_fut s1; e_eof := false |}, o2, 1%nat)
+                | None => (Ready None, s1, o2, 1%nat)
+                end
+            end in
+        match e_fut s with
+        | Some e' =>
+            let '(rdy, o1) := ask o in
+            if negb rdy then (Pending, s, o1, O) else
+            let '(chunk, e2) := enc_take e' in
+            let s1 := {| e_body := e_body s; e_encoder := Some e2; e_fut := None; e_eof := false |} in
+            if nonempty chunk then (Ready (Some chunk), s1, o1, O) else poll_body s1 o1
+        | None => poll_body s o
+        end
+    end.
+
+  (* the consumer of [enc_drive], counting the body's `None`s up to the encoder's own end *)
+  Fixpoint enc_drive_obs (n : nat) (s : enc_st) (o : list bool) : list bytes * enc_st * bool * nat :=
+    match n with
+    | O => ([], s, false, O)
+    | S n =>
+        match enc_poll_obs (enc_fuel s) s o with
+        | (Pending, s', o', k) => let '(cs, sf, fin, m) := enc_drive_obs n s' o' in (cs, sf, fin, (k + m)%nat)
+        | (Ready (Some c), s', o', k) => let '(cs, sf, fin, m) := enc_drive_obs n s' o' in (c :: cs, sf, fin, (k + m)%nat)
+        | (Ready None, s', _, k) => ([], s', true, k)
+        end
+    end.
+
   (* ================================================================ Decoder *)
 
   Inductive ditem := DChunk (b : bytes) | DErr.
